@@ -339,11 +339,13 @@ class deadline:
     """with deadline(20): ...   raises Spinning in the main thread after that many seconds of wall-clock time (SIGALRM)"""
     def __init__(self, seconds):
         self.seconds = seconds
+        self.fired = False          # stays set even if the code under test (or asyncio's task machinery) swallows Spinning
 
     def __enter__(self):
         import signal
 
         def fire(signum, frame):
+            self.fired = True
             raise Spinning()
         self.old = signal.signal(signal.SIGALRM, fire)
         signal.setitimer(signal.ITIMER_REAL, self.seconds)
